@@ -6,6 +6,7 @@ import collections
 import hashlib
 import os
 import random
+import signal
 import re
 import sys
 import tempfile
@@ -123,14 +124,14 @@ DSL_OBJECTS = [
 ]
 
 TEXT_PARTS = ['a', 'b', 'ab', 'x', ' ', '\n', '1', 'c', '', 'aa', 'abab', 'é', 'A', '$', 'a.b', '\t', 'd', 'C', '12', 'ba',
-              '\U0001F600', '\x00', 'ß', 'aé', '\n\n']
+              '\U0001F600', '\x00', 'ß', 'aé', '\n\n', 'e\u0301', 'a\u0308\u0323b', '\r\n', 'a\r\nb', '\r', '1\r\n2']
 
 
 def gen_text(rnd):
     return ''.join(rnd.choice(TEXT_PARTS) for _ in range(rnd.choice([0, 1, 2, 3, 5, 8, 12])))
 
 
-def texts_for(pat, rnd, n=4):
+def texts_for(pat, rnd, n=4, allow_cr=True):
     out = [gen_text(rnd) for _ in range(n)]
     p = C.parse(pat)
     if not p.error:
@@ -139,7 +140,7 @@ def texts_for(pat, rnd, n=4):
             out.append(rnd.choice(['', ' ', 'x', '\n']) + t + rnd.choice(['', ' ', 'b', '\n']) + (t if rnd.random() < 0.4 else ''))
         out.append('\n'.join(S._sample_tree(p.tree, rnd) for _ in range(3)))
     m = C.mask()
-    out = [t for t in dict.fromkeys(out) if not any(C.contains(m, ord(ch)) for ch in t) and '\r' not in t]
+    out = [t for t in dict.fromkeys(out) if not any(C.contains(m, ord(ch)) for ch in t) and (allow_cr or '\r' not in t)]
     return out or ['ab a\nb']
 
 
@@ -554,7 +555,8 @@ def gen_case(rnd, check, tier, idx):
         if C.parse(pat).error:
             pat = 'a(b)?'
         case['pat'] = pat
-    case['texts'] = texts_for(pat, rnd, 3 if tier == 'quick' else 5)
+    # C14 compares with files read in text mode: universal newlines would turn '\r\n' and '\r' into '\n' (left open by the property)
+    case['texts'] = texts_for(pat, rnd, 3 if tier == 'quick' else 5, allow_cr=check != 'C14')
     if sequential or not re.search(r'[*+]\)[*+?{]|\)\+|\)\*', pat):
         if rnd.random() < 0.12:
             # a long text: positions beyond the small-int range, many matches
@@ -565,6 +567,17 @@ def gen_case(rnd, check, tier, idx):
     hl = rnd.choice([0, 1, 2, 3, 5, 8, 12]) if tier == 'quick' else rnd.choice([0, 2, 5, 12, 25, 40])
     case['hist'] = [rnd.choice(HIST_OPS) for _ in range(hl)]
     return case
+
+
+CASE_TIMEOUT = 6
+
+
+class ApiTimeout(BaseException):
+    """raised by the SIGALRM handler; BaseException so that no 'except Exception' of the monitors swallows it"""
+
+
+def _alarm(signum, frame):
+    raise ApiTimeout()
 
 
 NCASES = {'C11': (9000, 90000), 'C12': (5000, 50000), 'C13': (7000, 70000), 'C14': (1400, 14000)}
@@ -587,6 +600,7 @@ def run_shard(ctx):
     ncases = 0
     hists = set()
     truncated = False
+    timeouts = 0
     try:
         for i in range(n):
             if time.time() - t0 > budget:
@@ -594,7 +608,19 @@ def run_shard(ctx):
                 break
             case = gen_case(rnd, check, tier, i)
             before = len(M.viols)
-            ran = run_case(M, check, case, tmpdir)
+            # per-case watchdog: a generated pattern/text pair may send re into catastrophic backtracking (in the
+            # library call or in the oracle alike); such a case is counted as a timeout, never as a verdict
+            old_handler = signal.signal(signal.SIGALRM, _alarm)
+            signal.alarm(CASE_TIMEOUT)
+            try:
+                ran = run_case(M, check, case, tmpdir)
+            except ApiTimeout:
+                timeouts += 1
+                del M.viols[before:]
+                continue
+            finally:
+                signal.alarm(0)
+                signal.signal(signal.SIGALRM, old_handler)
             if not ran:
                 continue
             ncases += 1
@@ -619,7 +645,7 @@ def run_shard(ctx):
     return {
         'evaluations': M.nchecks, 'cases': ncases, 'keys': sorted(keys), 'violations': viols, 'viol_counts': dict(nviol),
         'other_property_violations': dict(other), 'stats': {'checks': M.nchecks, 'ctor-failed': M.counts.get('ctor-failed', 0)},
-        'by_op': {k: v for k, v in M.counts.items()}, 'samples': samples, 'monitor_errors': [], 'timeouts': 0, 'truncated': truncated,
+        'by_op': {k: v for k, v in M.counts.items()}, 'samples': samples, 'monitor_errors': [], 'timeouts': timeouts, 'truncated': truncated,
         'extra': {'distinct_histories': len(hists)},
     }
 
